@@ -28,6 +28,23 @@ def gen_case(sd, idx, with_python):
             "grid": {"dims": (1, 1) if one_cell else (1, 4), "max_cells": 24 if not with_python else 8},
             "graph": {"nodes": (1, 1) if one_cell else (1, 7 if not with_python else 5), "simple": True}}
     desc = gen.rand_system(r, opts)
+    if not with_python and idx % 40 == 7:
+        # a hub: one node with 255..320 neighbours (more than an 8-bit counter can count), unequal volumes and contacts
+        h = desc["h"]
+        nleaf = r.choice([255, 256, 257, 300, 320])
+        envs_n = len(desc["envs"])
+        nodes = [{"vol": (h * r.uniform(2.0, 4.0)) ** 3, "env": r.randrange(envs_n)}] + \
+                [{"vol": (h * r.uniform(0.6, 1.8)) ** 3, "env": r.randrange(envs_n)} for _ in range(nleaf)]
+        edges = []
+        for j in range(1, nleaf + 1):
+            a, b = (0, j) if r.random() < 0.5 else (j, 0)
+            edges.append({"i": a, "j": b, "sfc": h * h * r.uniform(0.3, 2.0), "dst": h * r.uniform(0.5, 2.0)})
+        r.shuffle(edges)
+        desc["space"] = {"type": "graph", "nodes": nodes, "edges": edges}
+        ncell = nleaf + 1
+        S = len(desc["species"])
+        desc["state"] = [float(r.randint(0, 50)) for _ in range(S * ncell)]
+        desc["chemostats"] = [int(r.random() < 0.05) for _ in range(S * ncell)] if r.random() < 0.5 else None
     return desc
 
 
@@ -75,6 +92,11 @@ def run_case(case):
     rates = [abs(x) for x in f_free]
     maxrate = max([m / (abs(s) + 1.0) for m, s in zip(mag, state)] + [1e-3])
     dt = 0.02 / maxrate
+    if r.random() < 0.2:
+        # a step far beyond the stability limit: the explicit step is still x + dt * f(x), entries that overshoot below
+        # zero included (the statement is about the step, not about its usefulness)
+        dt *= r.choice([60.0, 150.0, 400.0])
+        info["overshooting_step"] = True
     osys = gen.mild_sys(r)
     try:
         script = simhelp.make_script(system, r, dt_si=dt, t_sample_si=[0.0, 10 * dt], policy="on_iteration",
